@@ -11,5 +11,8 @@ for id in $(python3 -c "import json;print(' '.join(c['property_id'].lower() for 
   if ! go build -tags verif -overlay "$BDIR/overlay-$id.json" -modfile "$BDIR/go.mod" -o "$BDIR/bin/$id" "./checks/$id" 2> "$BDIR/build-$id.log"; then
     cat "$BDIR/build-$id.log"; echo "setup: build of $id failed"; rc=1
   fi
+  if [ -f "checks/$id/RACEPASS" ]; then
+    go build -race -tags verif -overlay "$BDIR/overlay-$id.json" -modfile "$BDIR/go.mod" -o "$BDIR/bin/$id-race" "./checks/$id" 2> "$BDIR/build-$id-race.log" || { cat "$BDIR/build-$id-race.log"; echo "setup: -race build of $id failed"; rc=1; }
+  fi
 done
 exit $rc
